@@ -23,6 +23,8 @@ CLAIMS = {
          "NOT decided by this check (no obligation generated; a change there is not detected): which tables compactL0/compactLN/overlapL0/overlapLN/boundary select (D5: boundary compares raw strings - open, not demonstrated here), that the merged list is written, re-read and installed in place of the inputs (table.Build/C11, file order D6 - C03/C14), cascaded compaction, handles rebuilt by recovery. Trusted: container/heap, slices.SortFunc (permutation + sorted), watermark client contracts, sequential semantics under levelManager.mu", "4-C09"),
  "C15": ("Proof of a sufficient condition for deadlock freedom, not of the time bound: every blocking operation of every function of the engine, wal and watermark packages (Lock/RLock, channel send/receive, blocking select, WaitGroup.Wait, WaitForMark - also those reached through callees, by a transitive summary over static calls) is an obligation: its declared wait level is strictly above the level of every lock the activation holds at that point (ghost lockset of C12) and of every wait object the activation serves (run serves the senders on flushC/closeC and the receiver of closed; Commit and the watermark consumer serve WaitForMark). With levels wait:mark < oracle.writeLock < oracle.Mutex < flushC/closeC/closed < DB.mu < levelManager.mu < memtable.mu < WAL.mu < markC the waits-for graph is acyclic for every queue length (including 0) and every schedule: e.g. 'no lock the flusher needs is held while sending on flushC', 'readTs waits for commits while holding nothing'. An undeclared blocking operation fails the run.",
          "NOT decided: 'within bounded time' (liveness; needs a fair scheduler, terminating file-system calls and loop termination - no decreases clauses are checked here); the Close handshake credit - that somebody still receives from flushC after run left its loop (D14: a Commit racing Close can be stranded; no obligation of this check expresses it, so it is neither proved nor reported); that the directory can be reopened with the complete state (C02). Levels are per type and field, not per object; interface calls (logger, hash) are assumed not to block on engine objects; sync, channels and the scheduler trusted.", "4-C15"),
+ "C17": ("Proof for New, Reset, Set, Get, LowerBound, Scan, All, Size and randomLevel against a representation invariant over keys only (nodes / links / exact / distinct: every forward pointer leads to a member with a strictly larger key and enough levels; level 0 skips no member; two members never compare equal; each node owns its pointer array) and an abstract view SLMem (the set of nodes): New/Reset give the empty map; Set leaves a member whose key compares equal to the given key with the given value and tombstone flag - the existing member (key and version kept, nothing else touched) or one new member carrying the whole entry - and every other member untouched, nothing else added, for every tower height randomLevel can return (1..maxLevel, proved) and every maxLevel >= 1; Get returns the member comparing equal or reports none exists; LowerBound returns the least member >= key or reports that all are smaller; Scan returns exactly the members in [start,end) and All exactly all members, each once, strictly ascending by CompareKeys (key ascending, version descending). The insertion loop is proved level by level (the invariant is parametrised by the level reached; level 0 restores `exact`).",
+         "NOT decided: Delete (not under contract: unused by the engine, needs the all-level form of `exact`), so sequences containing Delete are outside the claim; the probability distribution of tower heights (p is irrelevant to the results); s.size arithmetic. Trusted: math/rand results unconstrained (library contract), CompareKeys through its proved contract (cmp), sequential semantics (memtable.mu held by the caller: C12).", "4-C17"),
  "C07": ("Proof at the level of fingerprints: hasConflict returns true exactly when a remembered committed transaction with ts > readTs wrote a read fingerprint (nested-loop invariants); cleanUpCommittedTxns keeps exactly the entries above the new mark (in-place filter with aliasing slices); newCommitTs refuses exactly when the ghost commit history Hist contains such a transaction (oracle invariant orcInv/histInv: nothing above the clean-up mark is forgotten, the mark never exceeds an open reader); Get records a fingerprint only for store reads; Commit returns ErrConflictTxn iff that holds and then changes neither View nor Hist; read-only / write-only transactions cannot conflict (empty readsFp).",
          "sequential semantics of each critical section (oracle lock held); watermark client contracts trusted (justified by C13); utils.Hash as an uninterpreted deterministic function: the key-level statement equals the fingerprint-level one when no two keys in play collide; DB.search/rawset used through their contracts; fewer than 2^63 commits", "4-C07"),
  "C08": ("Proof: modify/Set/Delete return the documented error in exactly the documented cases and then change nothing; otherwise they only touch the private buffer (frame conditions proved: assigns map pendingWrites, map writesFp). Discard only sets flags and finishes the read mark. Commit on a discarded transaction returns ErrDiscardedTxn, on conflict ErrConflictTxn, in both cases with View and Hist unchanged. View/Update return ErrDBClosed when closed, Update returns the closure's error without calling Commit and with View unchanged.",
